@@ -54,10 +54,18 @@ CHECKS = [
         "and mapping equality against the oracle for every plan.", CORR, "DESIGN.md §7 C16"),
     chk("C20",
         "Lean theorems: flox engine nanmax/nanmin keep +-inf extremes (all-NaN detected by count, floxEngine_eq_blockVal), one-pass "
-        "variance = two-pass variance in exact arithmetic for all inputs incl. NaN/inf (var_finalize); the accumulate-in-result-dtype "
-        "claim is checked on the regenerated dtype table; wrap-around and rounding themselves are observed by differential execution "
-        "(int8/uint8/int16 totals beyond the input width; var/std eager vs chunked within 1e-9).", CORR, "DESIGN.md §7 C20",
-        note=TB + " Floating-point rounding and integer wrap-around are runtime behaviours the exact model cannot exhibit: observed, not proved."),
+        "variance = two-pass variance in exact arithmetic for all inputs incl. NaN/inf (var_finalize); a width-aware "
+        "two's-complement model of integer accumulation (FloxModel/IntWidth: wrap after every step; engines cast first, then "
+        "accumulate; chunked = any tree of wrapping partial sums): cast-first accumulation at the table's 64-bit accumulator equals "
+        "the exact sum / product for every chunking, block order and tree whenever the total fits (cast_first_exact_all_plans, "
+        "chunkedSum_eq_wrap_total), accumulating at the input width does not (counterexample theorems = the repaired defects), and "
+        "the regenerated dtype table gives a 64-bit accumulator of the right signedness for every integer input (table_accumulators_64bit). "
+        "Tie: every integer sum/prod case of the stream is replayed through the model at the width of the dtype flox returned "
+        "(driver op intwidth) and must agree; the evidence counts how many cases lie in the wrap region. Rounding is observed "
+        "(var/std eager vs chunked within 1e-9).", CORR, "DESIGN.md §7 C20",
+        note=TB + " Floating-point rounding is a runtime behaviour the exact model cannot exhibit: observed, not proved. That the engines "
+        "really accumulate sequentially in the dtype they are handed (NumPy reduceat / numpy_groupies / numbagg) is a third-party contract, "
+        "validated by execution."),
     chk("C18",
         "Lean theorems over the model of aggregate_flox.quantile_ (one partition of label+1j*value, cumulative valid counts as "
         "offsets, floor/ceil, _lerp, NaN masks): for every array of finite values and NaNs, any unsorted codes, q in [0,1] and "
